@@ -279,6 +279,7 @@ func (m *Machine) concretize(t *Term, what string, capN int, signed bool, onResi
 	d := m.nextDecision("val", func() *decision {
 		d := &decision{}
 		var excl []*Term
+		lo := uint64(0)
 		for len(d.alts) < capN {
 			// prefer small values: ask for the minimum by probing small constants first
 			r := m.check(excl...)
@@ -294,7 +295,8 @@ func (m *Machine) concretize(t *Term, what string, capN int, signed bool, onResi
 			}
 			v := vals[t.ID]
 			// try to minimise (unsigned) with a few bisection steps so enumeration yields small lengths first
-			v = m.minimize(t, v, excl)
+			v = m.minimize(t, lo, v, excl)
+			lo = v + 1
 			d.alts = append(d.alts, v)
 			excl = append(excl, tNot(tEq(t, mkConst(t.W, v))))
 		}
@@ -337,8 +339,13 @@ func (m *Machine) concretize(t *Term, what string, capN int, signed bool, onResi
 }
 
 // minimize finds the smallest unsigned value of t consistent with pc and excl, starting from a model value.
-func (m *Machine) minimize(t *Term, v uint64, excl []*Term) uint64 {
-	lo, hi := uint64(0), v // invariant: some feasible value in [lo,hi], hi feasible
+func (m *Machine) minimize(t *Term, lo, v uint64, excl []*Term) uint64 {
+	hi := v // invariant: some feasible value in [lo,hi], hi feasible
+	if v < lo {
+		// values below lo are all excluded/infeasible only when enumeration is ascending; a wrapped
+		// or out-of-order model value restarts the search from 0
+		lo = 0
+	}
 	for iter := 0; lo < hi && iter < 70; iter++ {
 		mid := lo + (hi-lo)/2
 		ex := append(append([]*Term(nil), excl...), tCmp("bvule", t, mkConst(t.W, mid)))
